@@ -86,6 +86,21 @@ def run_main(mod, ctx) -> int:
                           f"{str(getattr(ctx, 'last_case', None))[:500]}", {"last_case": getattr(ctx, "last_case", None)})
             from common import TRUSTED_COMMON
             return ctx.finish(rule="(run aborted at the first non-finite output; see the violation)", trusted=TRUSTED_COMMON)
+        except Exception as e:  # noqa: BLE001
+            # safety net: an exception raised INSIDE the code under test (a frame of torchjd in the traceback) at a call the
+            # check expects to succeed is a verdict about the code, not a failure of the infrastructure: the inputs the checks
+            # build are legal, and on the unchanged tree no such exception occurs.  The replay records the traceback; the run is
+            # deterministic (tier + seed), so re-running it reproduces the failure.  Anything else is re-raised (exit 2).
+            tb = traceback.extract_tb(e.__traceback__)
+            inside = [f for f in tb if "/torchjd/" in f.filename.replace("\\", "/")]
+            if not inside:
+                raise
+            where = f"{inside[-1].filename.split('/torchjd/')[-1]}:{inside[-1].lineno} ({inside[-1].name})"
+            ctx.violation(f"the code under test raised {type(e).__name__}: {str(e)[:200]} in torchjd/{where} at a call the check expects "
+                          f"to succeed; last case: {str(getattr(ctx, 'last_case', None))[:400]}",
+                          {"last_case": getattr(ctx, "last_case", None), "traceback": traceback.format_exception(e)[-12:]})
+            from common import TRUSTED_COMMON
+            return ctx.finish(rule="(run aborted by an exception of the code under test; see the violation)", trusted=TRUSTED_COMMON)
 
 
 if __name__ == "__main__":
